@@ -56,7 +56,18 @@ TMsg ==
         /\ fwd' = fwd \o SelectSeq(ks, LAMBDA k : FALSE)
   /\ UNCHANGED <<roleSel, inTx, verdict, batch, replies, n, sc, on>>
 
-Step == /\ l <= Len(Rec) /\ l' = l + 1 /\ (Reset \/ TSetRole \/ TTx \/ TMsg)
+\* Bind(name) Execute Sync for a name whose Parse was sent earlier: whatever the reply, a statement the plugins refuse or
+\* answer themselves must not run on a server
+TBind ==
+  /\ E.ev = "bind"
+  /\ LET ks == E.kinds
+         v1 == on /\ E.reached /\ \E i \in DOMAIN ks : ks[i] \in {"blocked", "intercept"}
+     IN /\ Flag(v1, "blocked_reached_server", [kinds |-> ks, proto |-> "bind_of_named", roleSel |-> roleSel, inTx |-> inTx,
+                                                pos |-> "", spelling |-> "", sql |-> E.reply])
+        /\ seen' = seen \cup Kinds2({<<v1, "blocked_reached_server">>})
+  /\ UNCHANGED <<roleSel, inTx, verdict, batch, fwd, replies, n, sc, on>>
+
+Step == /\ l <= Len(Rec) /\ l' = l + 1 /\ named' = named /\ pendName' = pendName /\ (Reset \/ TSetRole \/ TTx \/ TMsg \/ TBind)
 TSpec == TInit /\ [][Step]_tv
 Accepted == /\ PrintT(<<"MATCHED", ToString(TLCGet("stats").diameter - 1)>>)
             /\ TLCGet("stats").diameter - 1 = Len(Rec)
